@@ -2,6 +2,7 @@
 import os
 from . import common as C
 from . import props as P
+from . import props2 as P2
 from . import gen as G
 from .engine import Program, rclass, opname
 from . import legs as LG
@@ -49,9 +50,44 @@ def link_aware(base):
     return m
 
 
+# fixed program families of props2 (added after round 9 of the seeded changes): which property runs which, and the
+# monitor that judges each (a program of a family is judged by its own monitor only)
+FAMILY_MONITORS = (("held", P2.mon_held_writer), ("cd", P2.mon_cd_commit), ("grow", P2.mon_grow),
+                   ("bigrec", P2.mon_big_record), ("weaker", P2.mon_weaker_hash))
+FAMILIES_FOR = {
+    "C01": [P2.gen_weaker_hash_programs],
+    "C02": [P2.gen_cd_commit_programs, P2.gen_grow_programs, P2.gen_held_writer_programs],
+    "C04": [P2.gen_cd_commit_programs, P2.gen_held_writer_programs],
+    "C05": [P2.gen_held_writer_programs, P2.gen_big_record_programs],
+    "C07": [P2.gen_held_writer_programs],
+    "C08": [P2.gen_grow_programs],
+    "C11": [P2.gen_big_record_programs, P2.gen_grow_programs],
+    "C12": [P2.gen_held_writer_programs],
+    "C14": [P2.gen_held_writer_programs],
+    "C15": [P2.gen_big_record_programs],
+    "C16": [P2.gen_cd_commit_programs, P2.gen_grow_programs],
+    "C20": [P2.gen_big_record_programs, P2.gen_grow_programs],
+}
+
+
+def family_monitor(rr):
+    for tag, m in FAMILY_MONITORS:
+        if tag in rr.prog.tags:
+            return m(rr)
+    return []
+
+
+def _not_family(m):
+    return lambda rr: [] if any(tag in rr.prog.tags for tag, _ in FAMILY_MONITORS) else m(rr)
+
+
 def reg(pid, **kw):
     kw.setdefault("monitors", [])
-    kw["monitors"] = [mon_generic] + kw["monitors"]
+    kw["monitors"] = [mon_generic, family_monitor] + [_not_family(m) for m in kw["monitors"]]
+    fams = FAMILIES_FOR.get(pid, [])
+    if fams:
+        g = kw["gen"]
+        kw["gen"] = lambda seed, tier, g=g, fams=fams: g(seed, tier) + [p for f in fams for p in f()]
     kw.setdefault("nontrivial", lambda rr: True)
     kw.setdefault("rule", "")
     REGISTRY[pid] = kw
@@ -108,8 +144,10 @@ reg("C16",
                             P.gen_commit_programs(G.Rng(seed + 162), N(tier, 60, 600), big=N(tier, 0.03, 0.1)) +
                             P.gen_size_matrix(G.Rng(seed + 163)) +
                             P.gen_history_programs(G.Rng(seed + 164), N(tier, 30, 300), maxlen=N(tier, 12, 30)) +
-                            P.gen_link_reader_programs() + P.gen_link_vs_written_programs()),
-    monitors=[link_aware(lambda rr: (P.mon_size_matrix(rr) if "matrix" in rr.prog.tags else
+                            P.gen_link_reader_programs() + P.gen_link_vs_written_programs() +
+                            P.gen_cancel_programs(G.Rng(seed + 165))),
+    monitors=[link_aware(lambda rr: (P.mon_cancel(rr) if "cancel" in rr.prog.tags else
+                          P.mon_size_matrix(rr) if "matrix" in rr.prog.tags else
                           P.mon_commit(rr) if "commit" in rr.prog.tags else
                           P.mon_history(rr) if "steps" in rr.prog.tags and "keys" in rr.prog.tags else
                           P.mon_roundtrip(rr) + P.mon_coexist(rr))),
@@ -132,7 +170,7 @@ reg("C16",
 
 reg("C05",
     gen=lambda seed, tier: (P.gen_history_programs(G.Rng(seed + 5), N(tier, 60, 600), maxlen=N(tier, 14, 40)) +
-                            P.gen_bucket_programs(G.Rng(seed + 51), N(tier, 60, 600)) + P.gen_bucket_shape_programs() +
+                            P.gen_bucket_programs(G.Rng(seed + 51), N(tier, 60, 600)) + P.gen_bucket_shape_programs(deep=(tier == "thorough")) +
                             P.gen_shared_removal_programs(G.Rng(seed + 52), N(tier, 20, 200)) +
                             P.gen_key_matrix_programs(G.Rng(seed + 53)) +
                             P.gen_attach_rewrite_programs(G.Rng(seed + 55))),
@@ -172,7 +210,7 @@ reg("C10",
                             P.gen_history_programs(G.Rng(seed + 101), N(tier, 40, 400), maxlen=N(tier, 14, 40), full=True) +
                             P.gen_shared_removal_programs(G.Rng(seed + 102), N(tier, 30, 300)) +
                             P.gen_foreign_listing_programs(G.Rng(seed + 103)) +
-                            P.gen_block_boundary_programs(G.Rng(seed + 104))),
+                            P.gen_block_boundary_programs(G.Rng(seed + 104)) + P.gen_bucket_shape_programs()),
     monitors=[lambda rr: (P.mon_shared_removal(rr) if "removals" in rr.prog.tags else
                           P.mon_list_agrees_with_lookup(rr) if rr.prog.tags.get("listing_only") else
                           P.mon_bucket(rr) if "bucket" in rr.prog.tags else
@@ -195,7 +233,7 @@ reg("C20",
                             P.gen_commit_programs(G.Rng(seed + 24), N(tier, 40, 400), big=N(tier, 0.03, 0.1)) +
                             P.gen_size_matrix(G.Rng(seed + 25)) +
                             P.gen_abandon_programs(G.Rng(seed + 26), N(tier, 20, 200)) +
-                            P.gen_bucket_programs(G.Rng(seed + 27), N(tier, 30, 300)) + P.gen_bucket_shape_programs() +
+                            P.gen_bucket_programs(G.Rng(seed + 27), N(tier, 30, 300)) + P.gen_bucket_shape_programs(deep=True) +
                             P.gen_metadata_programs(G.Rng(seed + 28), N(tier, 30, 300)) +
                             P.gen_cancel_programs(G.Rng(seed + 29)) + P.gen_link_cycle_programs()),
     monitors=[],
